@@ -189,6 +189,9 @@ def u2_files(sc, root: str) -> dict:
     files = {f"{sid}/__init__.py": "", f"{sid}/sub/__init__.py": "", f"{sid}/sub/deep/__init__.py": "", f"{sid}/other/__init__.py": "",
              f"{sid}/other/fill.py": "def fill" + s + "() -> int:\n    ...\n",
              f"{sid}/sub/deep/{nm['m1']}.py": decl(1), f"{sid}/sub/{nm['m2']}.py": decl(2)}
+    if sc.get("variant") == "initdecl":      # declaration 1 lives in the package file; the package keeps a module of its own
+        files[f"{sid}/sub/deep/{nm['m1']}.py"] = "def fillinit" + s + "() -> int:\n    ...\n"
+        files[f"{sid}/sub/deep/__init__.py"] = decl(1)
     for e in sc["exports"]:
         mod = ".".join([root, sid, "sub", "deep", nm["m1"]] if e["tgt"] == 1 else [root, sid, "sub", nm["m2"]])
         line = f"from {mod} import {nm[e['tgt']]}" + (f" as {e['alias']}{s}" if e["alias"] else "") + "\n"
